@@ -30,7 +30,7 @@ CK_NAMES = ("check", "cksum", "checksum", "checksum_")
 
 
 def run(db, rep, tier):
-    rep.rule("R1-checksum-protocol", "zero while written, summed after the last covered byte, folded in a loop, complemented, stored and patched", 30)
+    rep.rule("R1-checksum-protocol", "zero while written, summed after the last covered byte, folded in a loop, complemented, stored and patched", 24)   # 6 producers x (sum, zero, fold, complement): each is demanded by name below; the count of sum sites is free
     rep.rule("R2-derive-before-write", "header fields are final when the header goes through the cursor (or are patched back)", 28)
     rep.rule("R3-tags", "the tag of the immediate inner layer is stored; IPv6 extension chain links every header to its successor", 8)
     rep.rule("R4-padding", "minimum-frame padding is zero-filled after the inner layer", 2)
@@ -109,6 +109,13 @@ def r1(db, rep):
             tot = f["params"][1]["name"]
             end_ok = False
             e1 = facts.strip_all(a1)
+            # a named local for the end of the range is the expression it was initialised with, provided no byte is written
+            # between its initialisation and the sum (it would point before the last byte otherwise)
+            if e1["k"] == "DeclRefExpr" and e1.get("var") in facts.single_assign(f) and not e1.get("parm"):
+                vd = [x for x in facts.fn_nodes(f) if x["k"] == "VarDecl" and x.get("var") == e1["var"]]
+                between = [w for w in writes if vd and g.reachable(g.pos(vd[0]), g.pos(w)) and g.reachable(g.pos(w), g.pos(s))]
+                if not between:
+                    e1 = facts.strip_all(facts.single_assign(f)[e1["var"]])
             if e1["k"] == "BinaryOperator" and e1.get("op") == "+":
                 b0 = facts.strip_all(e1["c"][0])
                 rhs = facts.expr_str(e1["c"][1])
@@ -210,6 +217,27 @@ def r1(db, rep):
             while p is not None and p["k"] in ("ImplicitCastExpr", "ParenExpr"):
                 p = par.get(p["id"])
             okadd = p is not None and p["k"] == "BinaryOperator" and p.get("op") == "+" and any(x["k"] == "CallExpr" and x.get("cname") in SUM_FNS for x in facts.walk(p))
+            if not okadd:
+                # the same sum built in two statements: acc = pseudo(...); ... acc += sum_range(...) on every path onwards
+                q_ = p
+                while q_ is not None and q_["k"] in ("ImplicitCastExpr", "ParenExpr", "CStyleCastExpr", "CXXStaticCastExpr") or \
+                        (q_ is not None and q_["k"] == "BinaryOperator" and q_.get("op") == "+"):
+                    q_ = par.get(q_["id"])
+                acc = None
+                if q_ is not None and q_["k"] == "VarDecl":
+                    acc = q_.get("var")
+                elif q_ is not None and q_["k"] in ("BinaryOperator", "CompoundAssignOperator") and q_.get("op") in ("=", "+=") and \
+                        strip(q_["c"][0])["k"] == "DeclRefExpr":
+                    acc = strip(q_["c"][0]).get("var")
+                if acc is not None:
+                    adds = [x for x in facts.fn_nodes(f) if x["k"] == "CompoundAssignOperator" and x.get("op") == "+=" and
+                            strip(x["c"][0]).get("var") == acc and
+                            any(y["k"] == "CallExpr" and y.get("cname") in SUM_FNS for y in facts.walk(x["c"][1]))]
+                    resets = [x for x in facts.fn_nodes(f) if x["k"] == "BinaryOperator" and x.get("op") == "=" and
+                              strip(x["c"][0]).get("var") == acc and x is not q_ and g.reachable(g.pos(n), g.pos(x)) and
+                              not any(y["k"] == "DeclRefExpr" and y.get("var") == acc for y in facts.walk(x["c"][1]))]
+                    if adds and not resets and g.reaches_exit_avoiding(g.pos(n), [g.pos(x) for x in adds], normal_only=True) is None:
+                        okadd = True
             if okaddr and oksize and okproto and okparent and okadd:
                 rep.ok("R1-checksum-protocol", key, facts.loc(f, n), "parent's src/dst, size(), %s, added to the sum of the layer" % (pc or "").split("::")[-1])
             else:
@@ -365,24 +393,24 @@ def r2(db, rep):
 
 # ---------------------------------------------------------------------------
 def r3(db, rep):
+    from rules import _tags
+    is_lookup = _tags.make_is_lookup(db)
     n = 0
     for fid, f in sorted(db.functions.items()):
         if not f["qual"].endswith("::write_serialization") or not f.get("body"):
             continue
         short = f["qual"].replace("Tins::", "")
-        for c in [x for x in facts.fn_nodes(f) if x["k"] == "CallExpr" and x.get("cqual") in ("Tins::Internals::pdu_flag_to_ether_type", "Tins::Internals::pdu_flag_to_ip_type")]:
+        for c in [x for x in facts.fn_nodes(f) if is_lookup(x)]:
             n += 1
             key = "%s:lookup#%d" % (short, n)
-            a = facts.strip_all(c["c"][1])
-            txt = facts.expr_str(a).replace("this->", "")
-            if a["k"] == "DeclRefExpr":
-                for v in facts.fn_nodes(f):
-                    if v["k"] == "VarDecl" and v.get("var") == a.get("var") and v.get("c"):
-                        txt = facts.expr_str(v["c"][0]).replace("this->", "")
-            if txt in ("inner_pdu()->pdu_type()", "inner_pdu_->pdu_type()"):
+            # the class the tag is looked up for, read through named locals and through a helper that wraps the lookup
+            txts = _tags.looked_up_for(db, f, c)
+            bad = [t for t in txts if t not in ("inner_pdu()->pdu_type()", "inner_pdu_->pdu_type()")]
+            if txts and not bad:
                 rep.ok("R3-tags", key, facts.loc(f, c), "tag of inner_pdu()->pdu_type()")
             else:
-                rep.violation("R3-tags", key, facts.loc(f, c), "the tag is looked up for `%s`, not for the immediate inner layer" % txt[:60])
+                rep.violation("R3-tags", key, facts.loc(f, c), "the tag is looked up for `%s`, not for the immediate inner layer"
+                              % (bad[0][:60] if bad else "?"))
     if n < 7:
         rep.analysis_broken("only %d tag lookups in serialisers" % n)
     # IPv6 extension chain
